@@ -171,7 +171,7 @@ impl FileTransfer {
 }
 
 /// max. size in bytes to pre-allocate for the data of a file transfer based on the announced size
-const MAX_FILE_DATA_PREALLOC: u64 = 1024 * 1024;
+const MAX_FILE_DATA_PREALLOC: u64 = 512;
 
 #[derive(Debug)]
 pub struct FileTransferPlugin {
@@ -327,8 +327,9 @@ impl Plugin for FileTransferPlugin {
                                 next_package: 1,
                                 recvd_packages: 0,
                                 recvd_payload: 0,
-                                // dont trust the announced size for the allocation (might be corrupt or overflow).
-                                // file_data grows if needed. The capacity needs to be >0 if keep_data.
+                                // dont reserve the announced size: an announcement is ~100 bytes and transfers are kept,
+                                // so lots of announcements would reserve lots of memory. file_data grows with the packages.
+                                // The capacity needs to be >0 if keep_data.
                                 file_data: Vec::with_capacity(if keep_data {
                                     std::cmp::min(
                                         nr_packages.saturating_mul(buffer_size),
